@@ -383,7 +383,8 @@ Definition write_ok (closing : bool) (q : req) (r : resp) : bool :=
 
 (* handle() returns nil (the loop reads the next request) iff: *)
 Definition conn_survives (closing : bool) (q : req) (r : resp) : bool :=
-  write_ok closing q r && negb (r_close (prepare closing q r)) &&
+  (* a response whose writing failed cannot be completed any more: errClose (iff the source returns it) *)
+  (if wr_write_error_closes then write_ok closing q r else true) && negb (r_close (prepare closing q r)) &&
   negb (is_connect_ok q r) (* a successful CONNECT turns the connection into a tunnel *).
 
 (* ------------------------------------------------------------------ http.Handler variant (proxy_handler.go writeResponse) *)
